@@ -51,9 +51,9 @@ func runC04(c C04Case) cli.Result {
 	return cli.Run(cli.Opt{Dir: sb.Root, Stdin: c.Prog.MainText(), Timeout: 30 * time.Second}, append(args, "regex", "generate", "-")...)
 }
 
-var evasionPool = []string{`[\x5c'\"\[]*(?:\$[a-z0-9_@?!#{(*-]*)?(?:\x5c)?`, `[\"\^]*`, `x?`, `(?:\$[a-z]*)?`, `\s*`, `[\x5c'\"]*`, `(?:''|\x5c)?`, `_*`, ``}
-var suffixPool = []string{`(?:\s|<|>).*`, `[\s,;]`, `\s`, `(?:;|,|\s+)`, `[<>].*`, `$`, `\b`, `(?:\s.*)?`, ``}
-var noSpaceSuffixPool = []string{`(?:<|>).*`, `[,;]`, `[<>]`, `(?:[,;]\w*)`, `\d`, ``}
+var evasionPool = []string{`[\x5c'\"\[]*(?:\$[a-z0-9_@?!#{(*-]*)?(?:\x5c)?`, `[\"\^]*`, `x?`, `(?:\$[a-z]*)?`, `\s*`, `[\x5c'\"]*`, `(?:''|\x5c)?`, `_*`, ``, `\x5c|\^`, `''|""|_`, `\x5c*|\^*`, `'*|_?`}
+var suffixPool = []string{`(?:\s|<|>).*`, `[\s,;]`, `\s`, `(?:;|,|\s+)`, `[<>].*`, `$`, `\b`, `(?:\s.*)?`, ``, `\s|<|>`, `;|,`}
+var noSpaceSuffixPool = []string{`(?:<|>).*`, `[,;]`, `[<>]`, `(?:[,;]\w*)`, `\d`, ``, `<|>`}
 
 func yamlScalar(t *rapid.T, v string) string {
 	if v == "" {
@@ -273,7 +273,9 @@ func checkC04(c C04Case) Outcome {
 				continue
 			}
 			for rep := 0; rep < 4; rep++ {
-				s, ok := cmdVariant(l.T, pt, sm, fold, rep == 0)
+				// the bare word is a variant only if the evasion pattern matches the empty text
+				plain := rep == 0 && nullable(pt.Evasion)
+				s, ok := cmdVariant(l.T, pt, sm, fold, plain)
 				if !ok {
 					continue
 				}
@@ -310,6 +312,14 @@ func checkC04(c C04Case) Outcome {
 
 // cmdVariant builds the word with evasion strings inserted at every gap (and the suffix when a
 // marker demands one), independently of the reference regex. plain = no evasion text at all.
+func nullable(pattern string) bool {
+	if pattern == "" {
+		return true
+	}
+	m, err := reqv.FullMatch(pattern, "")
+	return err == nil && m
+}
+
 func cmdVariant(word string, pt ragen.CmdPatterns, sm *reqv.Sampler, fold, plain bool) (string, bool) {
 	stripped, suffix := word, ""
 	n := len(word)
